@@ -264,8 +264,8 @@ def run(ctx, replay):
         else:
             drift += 1
             if drift <= 10:
-                print("DRIFT ext=X04 row=%d in=%s out=%s expected=%s" % (
-                    t, json.dumps(row["in"], sort_keys=True), json.dumps(outs), json.dumps(row.get("exp"))))
+                print(("DRIFT ext=X04 row=%d out=%s expected=%s in=%s" % (
+                    t, json.dumps(outs), json.dumps(row.get("exp")), json.dumps(row["in"], sort_keys=True)))[:1500])
     ctx.cov["traces_validated_against_impl"] = accepted
     ctx.cov["drift_traces"] = drift
     ctx.cov["ext_finding_rows"] = finding_rows
